@@ -1,0 +1,17 @@
+//go:build !verif
+
+// Package verifhook provides named instrumentation points for the external
+// verification harness. Without the "verif" build tag every function is a
+// no-op that the compiler inlines away.
+package verifhook
+
+import "context"
+
+// Enabled reports whether the hooks are compiled in.
+const Enabled = false
+
+// Hit marks a named instrumentation point.
+func Hit(name string) error { return nil }
+
+// HitCtx marks a named instrumentation point for the operation carried by ctx.
+func HitCtx(ctx context.Context, name string) error { return nil }
